@@ -18,7 +18,7 @@ from typing import Optional
 from .. import evalenv, extract
 from ..common import Ctx
 
-MODULES = ["Ahbicht.Properties.C20", "Ahbicht.Properties.C20Eu", "Ahbicht.Properties.C20Iso"]
+MODULES = ["Ahbicht.Properties.C20", "Ahbicht.Properties.C20Eu", "Ahbicht.Properties.C20Iso", "Ahbicht.Properties.C20Write"]
 
 
 def days_from_civil(y, m, d):
@@ -210,6 +210,9 @@ def run(ctx: Ctx) -> None:
             for m in (3, 10):
                 sw = last_sunday(y, m) * 86400 + 3600
                 instants += [sw + h * 3600 for h in range(-27, 8)]
+        for y in range(1996, 2039):  # around every new year incl. both ends of the range: the written year differs from the instant's for most offsets
+            ny = days_from_civil(y, 1, 1) * 86400
+            instants += [t for t in (ny + h * 3600 for h in range(-27, 27)) if t0 <= t < t1]
         instants += [rng.randrange(t0, t1) for _ in range(20000)]
         instants += [rng.randrange(t0 // 3600, t1 // 3600) * 3600 for _ in range(10000)]
     else:
@@ -299,6 +302,7 @@ def run(ctx: Ctx) -> None:
     import datetime as _dt
     from ahbicht.content_evaluation.german_strom_and_gas_tag import parse_as_datetime
     iso_cases = iso_stream(rng, 6000 if ctx.quick else 120000)
+    t0w, t1w = t0, t1
     iso_rows = []
     for s, kind, t, off in iso_cases:
         ctx.case(("iso", s))
@@ -371,6 +375,22 @@ def run(ctx: Ctx) -> None:
                 n_diff += 1
                 if n_diff <= 5:
                     ctx.broke("correspondence", "iso", json.dumps({"input": s, "why": bad, "impl_parsed": parsed, "impl": got, "model": o}, ensure_ascii=False))
+        wr = []
+        for _ in range(3000 if ctx.quick else 60000):
+            r = rng.random()
+            t = (days_from_civil(rng.randrange(1996, 2039), 1, 1) * 86400 + rng.randrange(-90000, 90000)) if r < 0.3 else rng.randrange(t0w, t1w)
+            t = min(max(t, t0w), t1w - 1)
+            off = rng.choice(OFFSETS + [-86399, 86399, 82800, -82800]) if rng.random() < 0.5 else rng.randrange(-86399, 86400)
+            dtx = _dt.datetime.fromtimestamp(t, tz=_dt.timezone(_dt.timedelta(seconds=off)))
+            wr.append((t, off, dtx.isoformat(), "long" if off % 60 else "short"))
+        wouts = ctx.driver({"op": "write", "t": t, "off": off, "sep": "T", "st": st} for t, off, _, st in wr)
+        n_wdiff = 0
+        for (t, off, py, st), o in zip(wr, wouts):
+            if o.get("s") != py or not o.get("valid") or not o.get("fits"):
+                n_wdiff += 1
+                if n_wdiff <= 5:
+                    ctx.broke("correspondence", "write", json.dumps({"utc_second": t, "utc_offset_s": off, "python_isoformat": py, "model": o}))
+        ctx.coverage.setdefault("correspondence", {})["write"] = {"lines": len(wr), "disagreements": n_wdiff}
         ctx.coverage.setdefault("correspondence", {})["iso"] = {"lines": len(sendable), "disagreements": n_diff, "model_answers": tally}
     for s, fields, got in rows[:3]:
         ctx.sample({"input": s, "verdicts": got})
